@@ -680,6 +680,31 @@ func rtcStorm(run *vk.Run, a childArgs) {
 			}
 		}
 	}()
+	// a member that keeps changing its request: every change asks every member of the group,
+	// WHIP clients included, for its streams (RequestConns), also the one being torn down
+	pwg.Add(1)
+	go func() {
+		defer pwg.Done()
+		c, err := vclient.Dial(srv, fmt.Sprintf("rtcreq%d", a.Index))
+		if err != nil {
+			return
+		}
+		defer c.Close()
+		if m, ok := c.Join("r1", "pres1", "pw-pres1"); !ok || m.Str("kind") != "join" {
+			return
+		}
+		for k := 0; ; k++ {
+			select {
+			case <-stop:
+				return
+			default:
+			}
+			c.Send(vclient.Msg{"type": "request", "request": map[string]any{"": [][]string{{"audio"}, {"audio", "video"}, {}}[k%3]}})
+			run.Count("rtc_request_changes", 1)
+			ops.Add(1)
+			time.Sleep(300 * time.Microsecond)
+		}
+	}()
 	var wg sync.WaitGroup
 	// WHIP sessions created over HTTP and torn down (DELETE, or by closing the client's
 	// PeerConnection) while web clients join, publish and leave
